@@ -155,6 +155,17 @@ class Interp(ExprMixin, CallMixin, AnyMixin):
             self.setitem(obj, idx, v, t)
         elif isinstance(t, (ast.Tuple, ast.List)):
             items = self.iterate(v) if not isinstance(v, tuple) else list(v)
+            stars = [i for i, e in enumerate(t.elts) if isinstance(e, ast.Starred)]
+            if len(stars) == 1 and len(items) >= len(t.elts) - 1:
+                i = stars[0]
+                tail = len(t.elts) - i - 1
+                mid = items[i:len(items) - tail]
+                for e, x in zip(t.elts[:i], items[:i]):
+                    self.assign_target(e, x, env)
+                self.assign_target(t.elts[i].value, list(mid), env)
+                for e, x in zip(t.elts[i + 1:], items[len(items) - tail:]):
+                    self.assign_target(e, x, env)
+                return
             if len(items) != len(t.elts):
                 raise Unsupported("unpack length")
             for e, x in zip(t.elts, items):
@@ -294,6 +305,44 @@ class Interp(ExprMixin, CallMixin, AnyMixin):
             if node.finalbody:
                 self.exec_block(node.finalbody, env)
 
+    def s_Match(self, node, env):
+        subject = self.eval(node.subject, env)
+        for case in node.cases:
+            sub_bind = {}
+            if self.match_pattern(case.pattern, subject, env, sub_bind):
+                for k, v in sub_bind.items():
+                    env.vars[k] = v
+                if case.guard is not None and not self.is_true(self.eval(case.guard, env)):
+                    continue
+                self.exec_block(case.body, env)
+                return
+
+    def match_pattern(self, pat, subject, env, bind) -> bool:
+        """value / singleton / wildcard / capture / or / fixed-length sequence patterns (class and mapping patterns are outside the subset)"""
+        if isinstance(pat, ast.MatchValue):
+            return self.is_true(self.compare(ast.Eq(), subject, self.eval(pat.value, env)))
+        if isinstance(pat, ast.MatchSingleton):
+            return self.is_true(self.compare(ast.Is(), subject, pat.value))
+        if isinstance(pat, ast.MatchAs):
+            if pat.pattern is not None and not self.match_pattern(pat.pattern, subject, env, bind):
+                return False
+            if pat.name is not None:
+                bind[pat.name] = subject
+            return True
+        if isinstance(pat, ast.MatchOr):
+            return any(self.match_pattern(q, subject, env, bind) for q in pat.patterns)
+        if isinstance(pat, ast.MatchSequence):
+            subj = self.force(subject)
+            if not isinstance(subj, (tuple, list)) or any(isinstance(q, ast.MatchStar) for q in pat.patterns):
+                raise Unsupported("match sequence pattern over this subject")
+            if len(subj) != len(pat.patterns):
+                return False
+            return all(self.match_pattern(q, x, env, bind) for q, x in zip(pat.patterns, subj))
+        if isinstance(pat, ast.MatchClass) and not pat.patterns and not pat.kwd_patterns:
+            r = self.isinstance_value(subject, self.eval(pat.cls, env))
+            return r if isinstance(r, bool) else self.path.branch(r)
+        raise Unsupported(f"match pattern {type(pat).__name__}")
+
     def s_With(self, node, env):
         if len(node.items) != 1:
             raise Unsupported("with multiple items")
@@ -309,6 +358,19 @@ class Interp(ExprMixin, CallMixin, AnyMixin):
                 cm.held = False
                 for h in self.with_hooks:
                     h(self, "exit", cm, node, env)
+            return
+        if isinstance(cm, tuple) and cm and cm[0] == "suppress":
+            # contextlib.suppress(E, ...): an exception of one of these classes raised by the body ends the block silently
+            try:
+                self.exec_block(node.body, env)
+            except PyRaise as e:
+                cond = self.isinstance_value(e.exc, tuple(cm[1:]) if len(cm) > 2 else cm[1])
+                if isinstance(cond, bool):
+                    hit = cond
+                else:
+                    hit = self.path.branch(cond)
+                if not hit:
+                    raise
             return
         raise Unsupported(f"with {cm!r}")
 
@@ -390,8 +452,46 @@ class Interp(ExprMixin, CallMixin, AnyMixin):
         self.call_method(recv, "extend", [GenExp(gen, env)], {}, node)
         return True
 
+    def _prune_head_loop(self, node, env):
+        """`while <dq> and <dq>[0] <= <cutoff>: <dq>.popleft()` (cutoff a plain name/number): pops exactly the maximal head segment whose
+        entries are <= cutoff - summarised in closed form wherever the loop lives: new lo = p with lo <= p <= hi,
+        all entries in [lo, p) <= cutoff, and p == hi or entry p > cutoff."""
+        t = node.test
+        if node.orelse or len(node.body) != 1 or not isinstance(node.body[0], ast.Expr):
+            return False
+        if not (isinstance(t, ast.BoolOp) and isinstance(t.op, ast.And) and len(t.values) == 2 and isinstance(t.values[0], ast.Name)):
+            return False
+        dq, cmp_ = t.values
+        if not (isinstance(cmp_, ast.Compare) and len(cmp_.ops) == 1 and isinstance(cmp_.ops[0], ast.LtE)
+                and isinstance(cmp_.left, ast.Subscript) and isinstance(cmp_.left.value, ast.Name) and cmp_.left.value.id == dq.id
+                and isinstance(cmp_.left.slice, ast.Constant) and cmp_.left.slice.value == 0
+                and isinstance(cmp_.comparators[0], (ast.Name, ast.Constant))):
+            return False
+        call = node.body[0].value
+        if not (isinstance(call, ast.Call) and isinstance(call.func, ast.Attribute) and call.func.attr == "popleft" and not call.args
+                and isinstance(call.func.value, ast.Name) and call.func.value.id == dq.id):
+            return False
+        recv = self.eval(dq, env)
+        if not isinstance(recv, DequeV):
+            return False
+        if z3.is_int_value(z3.simplify(recv.lo)) and z3.is_int_value(z3.simplify(recv.hi)):
+            return False  # a concrete deque (encoder cross-check): the loop is simply executed
+        from .ops import rterm
+        cutoff = rterm(self.eval(cmp_.comparators[0], env))
+        p = z3.Int(fresh_name("prune_p"))
+        i = z3.Int("i!prune")
+        self.path.assume(z3.And(recv.lo <= p, p <= recv.hi,
+                                z3.ForAll([i], z3.Implies(z3.And(recv.lo <= i, i < p), z3.Select(recv.arr, i) <= cutoff)),
+                                z3.Implies(p < recv.hi, z3.Select(recv.arr, p) > cutoff)))
+        self.path.quantified = True
+        recv.lo = p
+        self.note_mutation(recv)
+        return True
+
     def s_While(self, node, env):
         spec = self.find_loop_spec(env, node)
+        if spec is None and self._prune_head_loop(node, env):
+            return
         if spec is None:
             # concrete mode only (encoder cross-check): the test must evaluate to a definite value every time
             for _ in range(100000):
@@ -815,6 +915,8 @@ class Interp(ExprMixin, CallMixin, AnyMixin):
                 bwork.extend(b["alts"])
                 if b["end"] in ("end:infeasible", "end:assume False"):
                     continue
+                if a["end"] == "unsupported" or b["end"] == "unsupported":
+                    continue  # already recorded as undecided; a relational verdict over half a path would be meaningless
                 pb.check_obligations = True
                 compare(self, a, b, pb)
                 res.obligations.extend(pb.obligations)
